@@ -48,3 +48,17 @@ package yae
 //@   requires e != nil && closure != nil && env0 != nil
 //@   modifies all
 //@   at call dyn: assert #checked-first envOK(env0, env1)
+
+// The per-binding test envCheck applies to every name of the compile-time
+// environment (C07): the closure returns normally only if the run-time
+// environment binds the name and the bound value's type equals the declared
+// type (types.Equals == structural equality, proved in package types).
+// ASSUMED (stated at the call): the declared type and the type of a run-time
+// value are well-formed type trees.
+//@ closure (*Expr).envCheck$1
+//@   props C07
+//@   requires env != nil
+//@   modifies
+//@   records val.(*Env).Get types.Equals
+//@   at call Equals: assume wfT(arg0) && wfT(arg1)
+//@   ensures #accepted-only scalls() == 2 && scall(0, Get, env, name) && sret(0, Get, 1) && scall(1, Equals, ty, sret(0, Get, 0).Type) && sret(1, Equals) && tyEq(ty, sret(0, Get, 0).Type)
